@@ -35,6 +35,7 @@ type gty struct {
 var (
 	tU64     = &gty{k: "u64"}
 	tU32     = &gty{k: "u32"}
+	tU8      = &gty{k: "u8"}
 	tInt     = &gty{k: "int"}
 	tBool    = &gty{k: "bool"}
 	tString  = &gty{k: "string"}
@@ -49,6 +50,8 @@ func (t *gty) lean() string {
 		return "UInt64"
 	case "u32":
 		return "UInt32"
+	case "u8":
+		return "UInt8"
 	case "int", "untyped":
 		return "Int"
 	case "bool":
@@ -99,7 +102,7 @@ func (t *gty) ok() bool {
 // eqSafe: Go's == on this type is the structural equality the Lean model has (no pointer identity inside)
 func (tr *translator) eqSafe(t *gty) bool {
 	switch t.k {
-	case "u64", "u32", "int", "bool", "string", "untyped":
+	case "u64", "u32", "u8", "int", "bool", "string", "untyped":
 		return true
 	case "struct":
 		si := tr.structOf(t)
@@ -116,10 +119,10 @@ func (tr *translator) eqSafe(t *gty) bool {
 	return false
 }
 
-func (t *gty) isNum() bool { return t.k == "u64" || t.k == "u32" || t.k == "int" }
+func (t *gty) isNum() bool { return t.k == "u64" || t.k == "u32" || t.k == "u8" || t.k == "int" }
 
 // pointers to these foreign types are opaque tokens (`abbrev <name> := Nat`): the translated code never looks inside
-var foreignOpaque = map[string]string{"btcec.PublicKey": "PublicKey"}
+var foreignOpaque = map[string]string{"btcec.PublicKey": "PublicKey", "schnorr.Signature": "Signature"}
 
 // calls that leave the translated set but whose RESULT the code branches on: they become explicit function
 // parameters of the generated definition (the tie theorem then quantifies over / instantiates their behaviour)
@@ -132,6 +135,11 @@ type extFn struct {
 var externals = map[string]*extFn{
 	"strconv.ParseInt":      {"ext_ParseInt", "String → Int → Int → Int × Option String", &gty{k: "tuple", items: []*gty{tInt, tError}}},
 	"nut11.ParsePublicKey":  {"ext_ParsePublicKey", "String → PublicKey × Option String", &gty{k: "tuple", items: []*gty{{k: "opaque", name: "PublicKey"}, tError}}},
+	"nut11.ParseSignature":  {"ext_ParseSignature", "String → Signature × Option String", &gty{k: "tuple", items: []*gty{{k: "opaque", name: "Signature"}, tError}}},
+	// method of an opaque foreign value: the receiver is the first argument
+	"Signature.Verify": {"ext_Verify", "Signature → List UInt8 → PublicKey → Bool", tBool},
+	"time.now":         {"ext_now", "Int", tInt},
+	"sha256.string":    {"ext_sha256", "String → List UInt8", &gty{k: "slice", elem: tU8}},
 }
 
 type trErr struct{ msg string }
@@ -203,6 +211,8 @@ func (tr *translator) resolve(pk string, e ast.Expr) *gty {
 			return tU64
 		case "uint32":
 			return tU32
+		case "byte", "uint8":
+			return tU8
 		case "int", "int64":
 			return tInt
 		case "bool":
@@ -359,7 +369,7 @@ func (c *fctx) wrapRet(v string) string {
 
 func zeroOf(t *gty) string {
 	switch t.k {
-	case "u64", "u32", "int":
+	case "u64", "u32", "u8", "int":
 		return "(0 : " + t.lean() + ")"
 	case "bool":
 		return "false"
@@ -446,6 +456,10 @@ func (c *fctx) expr(s *scope, e ast.Expr, hint *gty) (string, *gty) {
 			trFail("unknown qualified identifier %s.%s", id.Name, x.Sel.Name)
 		}
 		base, bt := c.expr(s, x.X, nil)
+		if bt.k == "opt" && bt.elem.k == "struct" {
+			// field through a pointer that may be nil: Go panics on nil, here the zero value (panics are not modelled)
+			base, bt = "(Option.getD "+base+" default)", bt.elem
+		}
 		if bt.k != "struct" {
 			trFail("field %s of a non-struct", x.Sel.Name)
 		}
@@ -455,7 +469,27 @@ func (c *fctx) expr(s *scope, e ast.Expr, hint *gty) (string, *gty) {
 			trFail("field %s.%s is not modelled (pointer, function or foreign type)", bt.name, x.Sel.Name)
 		}
 		return base + "." + x.Sel.Name, ft
+	case *ast.SliceExpr:
+		if x.Low == nil && x.High == nil && x.Max == nil {
+			return c.expr(s, x.X, hint) // a[:] of an array / slice: the same elements
+		}
+		trFail("slice expression with bounds")
 	case *ast.CompositeLit:
+		if at, ok := x.Type.(*ast.ArrayType); ok && at.Len == nil {
+			t := c.tr.resolve(c.fi.pkg, x.Type)
+			if !t.ok() {
+				trFail("slice literal of an unmodelled type")
+			}
+			var els []string
+			for _, el := range x.Elts {
+				v, vt := c.expr(s, el, t.elem)
+				if vt.lean() != t.elem.lean() {
+					trFail("slice literal element type")
+				}
+				els = append(els, v)
+			}
+			return "([" + strings.Join(els, ", ") + "] : " + t.lean() + ")", t
+		}
 		t := c.tr.resolve(c.fi.pkg, x.Type)
 		if t.k == "struct" && len(x.Elts) == 0 {
 			return "(default : " + t.lean() + ")", t
@@ -687,12 +721,48 @@ func (c *fctx) external(s *scope, key string, x *ast.CallExpr) (string, *gty) {
 	return "(" + strings.Join(parts, " ") + ")", ef.result
 }
 
+func (c *fctx) useExt(key string) *extFn {
+	seen := false
+	for _, u := range c.tr.extUsed {
+		if u == key {
+			seen = true
+		}
+	}
+	if !seen {
+		c.tr.extUsed = append(c.tr.extUsed, key)
+	}
+	return externals[key]
+}
+
 func (c *fctx) call(s *scope, x *ast.CallExpr, hint *gty) (string, *gty) {
+	switch exprString(x) {
+	case "time.Now().Local().Unix()", "time.Now().Unix()":
+		return c.useExt("time.now").param, tInt
+	}
+	if sel, ok := x.Fun.(*ast.SelectorExpr); ok && exprString(sel) == "sha256.Sum256" && len(x.Args) == 1 {
+		// sha256.Sum256([]byte(str)): the digest of a string, as an external function
+		if conv, ok := x.Args[0].(*ast.CallExpr); ok && exprString(conv.Fun) == "[]byte" && len(conv.Args) == 1 {
+			a, at := c.expr(s, conv.Args[0], tString)
+			if at.k == "string" {
+				return "(" + c.useExt("sha256.string").param + " " + a + ")", &gty{k: "slice", elem: tU8}
+			}
+		}
+		trFail("sha256.Sum256 of something that is not []byte(string)")
+	}
 	if sel, ok := x.Fun.(*ast.SelectorExpr); ok {
 		if id, ok := sel.X.(*ast.Ident); ok && s.lookup(id.Name) == nil {
 			key := id.Name + "." + sel.Sel.Name
 			if _, ok := externals[key]; ok {
 				return c.external(s, key, x)
+			}
+			if key == "slices.Delete" && len(x.Args) == 3 {
+				a, at := c.expr(s, x.Args[0], hint)
+				if at.k != "slice" {
+					trFail("slices.Delete of a non-slice")
+				}
+				i, it := c.expr(s, x.Args[1], tInt)
+				j, jt := c.expr(s, x.Args[2], tInt)
+				return "(Go.sliceDelete " + a + " " + c.toNat(i, it) + " " + c.toNat(j, jt) + ")", at
 			}
 			if key == "fmt.Sprintf" {
 				// only the FORMAT is kept: the rendered arguments never influence control flow in the translated set
@@ -729,6 +799,13 @@ func (c *fctx) call(s *scope, x *ast.CallExpr, hint *gty) (string, *gty) {
 			return "(Int.ofNat (List.length " + a + "))", tInt
 		case "append":
 			a, at := c.expr(s, x.Args[0], hint)
+			if at.k == "slice" && x.Ellipsis != token.NoPos && len(x.Args) == 2 {
+				b, bt := c.expr(s, x.Args[1], at)
+				if bt.lean() != at.lean() {
+					trFail("append of another slice type")
+				}
+				return "(" + a + " ++ " + b + ")", at
+			}
 			if at.k != "slice" || x.Ellipsis != token.NoPos {
 				trFail("append form")
 			}
@@ -790,6 +867,30 @@ func (c *fctx) call(s *scope, x *ast.CallExpr, hint *gty) (string, *gty) {
 			}
 			trFail("call of %s.%s (not in the translated set)", id.Name, sel.Sel.Name)
 		}
+		// method of an opaque foreign value
+		if id, ok := sel.X.(*ast.Ident); ok {
+			if v := s.lookup(id.Name); v != nil && v.t.k == "opaque" {
+				key := v.t.name + "." + sel.Sel.Name
+				if ef, ok := externals[key]; ok {
+					seen := false
+					for _, u := range c.tr.extUsed {
+						if u == key {
+							seen = true
+						}
+					}
+					if !seen {
+						c.tr.extUsed = append(c.tr.extUsed, key)
+					}
+					parts := []string{ef.param, v.lean}
+					for _, a := range x.Args {
+						av, _ := c.expr(s, a, nil)
+						parts = append(parts, av)
+					}
+					return "(" + strings.Join(parts, " ") + ")", ef.result
+				}
+				trFail("method %s of an opaque value", key)
+			}
+		}
 		// method call on a value
 		for _, fi := range c.tr.funcs {
 			if fi.recv != "" && fi.name == sel.Sel.Name {
@@ -810,10 +911,20 @@ func (c *fctx) callFn(s *scope, fi *funcInfo, recv *string, args []ast.Expr) (st
 	if fi.fuel {
 		trFail("call of %s, which needs fuel", fi.lean)
 	}
-	if len(fi.exts) > 0 {
-		trFail("call of %s, which has external parameters", fi.lean)
-	}
 	parts := []string{fi.lean}
+	// the callee's external parameters are the caller's too (same names), passed on in the callee's order
+	for _, key := range fi.exts {
+		seen := false
+		for _, u := range c.tr.extUsed {
+			if u == key {
+				seen = true
+			}
+		}
+		if !seen {
+			c.tr.extUsed = append(c.tr.extUsed, key)
+		}
+		parts = append(parts, externals[key].param)
+	}
 	ps := fi.params
 	if recv != nil {
 		parts = append(parts, *recv)
@@ -877,6 +988,17 @@ func assigned(stmts []ast.Stmt, s *scope) []string {
 			}
 		case *ast.IncDecStmt:
 			add(x.X, false)
+		case *ast.ExprStmt:
+			if call, ok := x.X.(*ast.CallExpr); ok {
+				if id, ok := call.Fun.(*ast.Ident); ok && id.Name == "copy" && len(call.Args) == 2 {
+					add(call.Args[0], false)
+				}
+				if exprString(call.Fun) == "json.Unmarshal" && len(call.Args) == 2 {
+					if ref, ok := call.Args[1].(*ast.UnaryExpr); ok {
+						add(ref.X, false)
+					}
+				}
+			}
 		case *ast.RangeStmt:
 			if x.Tok == token.DEFINE {
 				if x.Key != nil {
@@ -992,6 +1114,41 @@ func (c *fctx) block(s *scope, stmts []ast.Stmt, d int, k func() string) string 
 		return ind(d) + "let " + v.lean + " : " + v.t.lean() + " := " + v.lean + " " + op + " 1\n" + next()
 	case *ast.AssignStmt:
 		return c.assign(s, x, d) + next()
+	case *ast.ExprStmt:
+		if call, ok := x.X.(*ast.CallExpr); ok {
+			if id, ok := call.Fun.(*ast.Ident); ok && id.Name == "copy" && len(call.Args) == 2 && s.lookup("copy") == nil {
+				dst, ok := call.Args[0].(*ast.Ident)
+				if !ok {
+					trFail("copy into a non-variable")
+				}
+				v := s.lookup(dst.Name)
+				src, st := c.expr(s, call.Args[1], nil)
+				if v == nil || v.t.k != "slice" || st.lean() != v.t.lean() {
+					trFail("copy between different slice types")
+				}
+				return ind(d) + "let " + v.lean + " : " + v.t.lean() + " := Go.copySlice " + v.lean + " " + src + "\n" + next()
+			}
+		}
+		if call, ok := x.X.(*ast.CallExpr); ok && exprString(call.Fun) == "json.Unmarshal" && len(call.Args) == 2 {
+			// json.Unmarshal([]byte(str), &v) with the error IGNORED: v becomes whatever the decoder leaves in it
+			conv, ok1 := call.Args[0].(*ast.CallExpr)
+			ref, ok2 := call.Args[1].(*ast.UnaryExpr)
+			if ok1 && ok2 && exprString(conv.Fun) == "[]byte" && ref.Op == token.AND {
+				if id, ok := ref.X.(*ast.Ident); ok {
+					v := s.lookup(id.Name)
+					a, at := c.expr(s, conv.Args[0], tString)
+					if v != nil && v.t.k == "struct" && at.k == "string" {
+						key := "json.Unmarshal:" + v.t.name
+						if _, ok := externals[key]; !ok {
+							externals[key] = &extFn{"ext_Unmarshal_" + v.t.name, "String → " + v.t.name + " → " + v.t.name, v.t}
+						}
+						return ind(d) + "let " + v.lean + " : " + v.t.lean() + " := " + c.useExt(key).param + " " + a + " " + v.lean + "\n" + next()
+					}
+				}
+			}
+			trFail("json.Unmarshal form")
+		}
+		trFail("expression statement (a call whose effect is not modelled)")
 	case *ast.ReturnStmt:
 		var vs []string
 		for i, r := range x.Results {
